@@ -144,11 +144,12 @@ def frame_to_abs(cid, pdu):
     if n == 'L2CAP_LE_Credit_Based_Connection_Request':
         return ['LeReq', f.identifier, f.le_psm, f.source_cid, f.initial_credits, _params_ok(f.mtu, f.mps)]
     if n == 'L2CAP_LE_Credit_Based_Connection_Response':
-        return ['LeRsp', f.identifier, f.destination_cid, f.initial_credits, int(f.result)]
+        return ['LeRsp', f.identifier, f.destination_cid, f.initial_credits, int(f.result), _params_ok(f.mtu, f.mps)]
     if n == 'L2CAP_Credit_Based_Connection_Request':
         return ['EnhReq', f.identifier, f.spsm, f.initial_credits, list(f.source_cid), _params_ok(f.mtu, f.mps)]
     if n == 'L2CAP_Credit_Based_Connection_Response':
-        return ['EnhRsp', f.identifier, f.initial_credits, int(f.result), list(f.destination_cid)]
+        return ['EnhRsp', f.identifier, f.initial_credits, int(f.result), list(f.destination_cid),
+                _params_ok(f.mtu, f.mps)]
     if n == 'L2CAP_LE_Flow_Control_Credit':
         return ['Credit', f.identifier, f.cid, f.credits]
     if n == 'L2CAP_Command_Reject':
@@ -198,14 +199,15 @@ def abs_to_frame(a):
             mps=MPS if (len(a) < 6 or a[5]) else 0, initial_credits=a[4]))
     if k == 'LeRsp':
         return LS, bytes(l2cap.L2CAP_LE_Credit_Based_Connection_Response(
-            identifier=a[1], destination_cid=a[2], mtu=MTU, mps=MPS, initial_credits=a[3], result=a[4]))
+            identifier=a[1], destination_cid=a[2], mtu=MTU, mps=MPS if (len(a) < 6 or a[5]) else 0,
+            initial_credits=a[3], result=a[4]))
     if k == 'EnhReq':
         return LS, bytes(l2cap.L2CAP_Credit_Based_Connection_Request(
             identifier=a[1], spsm=a[2], mtu=MTU, mps=MPS if (len(a) < 6 or a[5]) else 0, initial_credits=a[3],
             source_cid=list(a[4])))
     if k == 'EnhRsp':
         return LS, bytes(l2cap.L2CAP_Credit_Based_Connection_Response(
-            identifier=a[1], mtu=MTU, mps=MPS, initial_credits=a[2],
+            identifier=a[1], mtu=MTU, mps=MPS if (len(a) < 6 or a[5]) else 0, initial_credits=a[2],
             result=l2cap.L2CAP_Credit_Based_Connection_Response.Result(a[3]), destination_cid=list(a[4])))
     if k == 'Credit':
         return LS, bytes(l2cap.L2CAP_LE_Flow_Control_Credit(identifier=a[1], cid=a[2], credits=a[3]))
@@ -347,10 +349,10 @@ class Mgr:
             c = chans.get(r.source_cid)
             if c is not None and not is_le(c):
                 return False
-            return a[4] != 0 or a[2] not in le
+            return a[4] != 0 or not (len(a) < 6 or a[5]) or a[2] not in le
         if k == 'EnhRsp':
             p = m.pending_credit_based_connections.get(h, {}).get(a[1])
-            if p is None or a[3] != 0:
+            if p is None or a[3] != 0 or not (len(a) < 6 or a[5]):
                 return True
             return len(a[4]) == len(p[1]) and len(set(a[4])) == len(a[4]) and not (set(a[4]) & set(le))
         if k == 'EnhReq':
@@ -472,7 +474,8 @@ class World:
         a = frame_to_abs(cid, pdu)
         # a refused / failed open is unregistered only when the opening coroutine resumes; the
         # model does both in one step, so such frames are always followed by a run of the loop
-        failing = (a[0] == 'LeRsp' and a[4] != 0) or (a[0] == 'EnhRsp' and a[3] != 0) or \
+        badp = a[0] in ('LeRsp', 'EnhRsp') and not a[5]      # (D17g) a response handled as a refusal
+        failing = badp or (a[0] == 'LeRsp' and a[4] != 0) or (a[0] == 'EnhRsp' and a[3] != 0) or \
                   (a[0] == 'ConnRsp' and a[4] not in (0, 1)) or (a[0] == 'ConfReq' and a[3] >= 0) or \
                   a[0] == 'DiscReq'
         if self.mgrs[m].ev_recv(h, cid, pdu):
@@ -768,12 +771,14 @@ def gen_foreign_frame(rng, w, m, h, ltype):
         q = rng.choice(reqs[-4:])
         key = (m, q[0], q[1])
         if q[0] == 'LeReq' and ltype == 'le':
-            return ['LeRsp', q[1], rng.choice(fresh), rng.choice([0, 1, 5]), rng.choice([0] * 4 + [2, 4])]
+            return ['LeRsp', q[1], rng.choice(fresh), rng.choice([0, 1, 5]), rng.choice([0] * 4 + [2, 4]),
+                    not rng.chance(1, 6)]
         if q[0] == 'EnhReq' and ltype == 'le':
             res = rng.choice([0] * 4 + [2, 4])
             cur = M.mgr.pending_credit_based_connections.get(h, {}).get(q[1])
             n = len(cur[1]) if cur is not None else len(q[4])
-            return ['EnhRsp', q[1], rng.choice([0, 1, 5]), res, fresh[:n] if res == 0 and len(fresh) >= n else []] \
+            return ['EnhRsp', q[1], rng.choice([0, 1, 5]), res, fresh[:n] if res == 0 and len(fresh) >= n else [],
+                    not rng.chance(1, 6)] \
                 if (res != 0 or len(fresh) >= n) else ['Reject', q[1]]
         if q[0] == 'ConnReq' and ltype == 'cl':
             return ['ConnRsp', q[1], rng.choice(fresh), q[3], rng.choice([0] * 4 + [1, 2, 4])]
@@ -1155,6 +1160,9 @@ CORPUS = [
                                              ['inject', 0, 1, ['EnhReq', 8, 0x80, 2, [0x51, 0x52], False]],
                                              ['inject', 0, 1, ['LeReq', 9, 0x80, 0x50, 1, True]],
                                              ['inject', 0, 1, ['EnhReq', 10, 0x80, 2, [0x51, 0x52], True]]]),
+    # (D17g, 19ac8d3) a successful response with an MPS below the minimum is a refusal: the open fails,
+    # nothing stays filed, the same CIDs are handed out again
+    ('bad-params-rsp', 'foreign', ['le', 'le'], [['open', 0, 1, 0, 128, 1, 0], ['inject', 0, 1, ['LeRsp', 1, 80, 2, 0, False]], ['open', 0, 1, 0, 128, 1, 0], ['open', 0, 1, 1, 128, 2, 0], ['inject', 0, 1, ['EnhRsp', 3, 2, 0, [81, 82], False]], ['open', 0, 1, 1, 128, 2, 0]]),
     # D07 seen from the tables: enhanced server channel, peer CIDs differ from ours, close
     ('D07-tables', 'foreign', ['le', 'le'], [['inject', 0, 1, ['EnhReq', 7, 0x80, 2, [0x50, 0x51]]], ['close', 0, 0],
                                              ['inject', 0, 1, ['DiscRsp', 1, 0x50, 0x40]]]),
